@@ -202,8 +202,7 @@ func (r *Report) Finish(start time.Time, explanation string, nd []string, truste
 				b, _ := json.MarshalIndent(map[string]any{"property": r.Prop, "obligation": o, "tier": r.Tier,
 					"replay": "bin/oxycheck explain " + path}, "", " ")
 				_ = os.WriteFile(path, b, 0o644)
-				fmt.Printf("%-5s %-8s %-70s %s — %s\n", "FAIL", o.Rule, o.Construct, o.Pos, o.Msg)
-				fmt.Printf("%s: rule=%s construct=%q at %s: %s\n", o.Kind, o.Rule, o.Construct, o.Pos, o.Msg)
+				fmt.Printf("%-5s %-8s %-70s %s — [%s] %s\n", "FAIL", o.Rule, o.Construct, o.Pos, o.Kind, o.Msg)
 				fmt.Printf("VIOLATION property=%s replay=%s\n", r.Prop, path)
 			}
 		}
